@@ -269,6 +269,20 @@ func (s *State) moveElems(dst, src Ptr, elem types.Type, n *Term) {
 	}
 	// symbolic count: unroll up to an upper bound with guarded moves (raw objects only)
 	ub, ok := s.upperBound(n)
+	if (!ok || ub > 4096) && dst.Obj != nil && dst.Obj.Raw && src.Obj != nil && src.Obj.Raw && s.cfg != nil && s.cfg.BulkCopyHavoc {
+		// a copy of unbounded symbolic length between integer arrays: the destination's contents are
+		// over-approximated by unconstrained bytes (only used by harnesses that reason about lengths)
+		s.access(src, false)
+		s.access(dst, true)
+		dst.Obj.Havoc = true
+		dst.Obj.Arr = nil
+		dst.Obj.Bytes = map[int]*Term{}
+		dst.Obj.HavocName = fmt.Sprintf("bulk%d", dst.Obj.ID)
+		if s.stubSeen != nil {
+			s.stubSeen["abstraction: bulk copy of symbolic length (destination contents unconstrained)"] = true
+		}
+		return
+	}
 	if !ok || ub > 4096 || dst.Obj == nil || !dst.Obj.Raw || src.Obj == nil || !src.Obj.Raw {
 		c := s.concretize(n, 128, "copy length")
 		s.moveElems(dst, src, elem, Const(64, c))
